@@ -1,5 +1,6 @@
 import ErbiumModel.Model.DnsRelay
 import ErbiumModel.Lemmas.DnsMessage
+import ErbiumModel.Lemmas.DnsTruncated
 /-! # C03 — DNS answers relayed to clients are faithful to what the upstream server said -/
 namespace Erbium.Props.C03
 open Erbium Erbium.DnsWire Erbium.DnsRelay
@@ -63,5 +64,35 @@ theorem C03_wire_faithful (q r : Pkt) (ip ck : Bytes) (size : Nat) (wire : Bytes
   simp only at hf
   exact ⟨_, message_roundtrip _ hw size wire hc hsz, hf.1, hf.2.1, hf.2.2.2.1, hf.2.2.1, hf.2.2.2.2.2.1, hf.2.2.2.2.2.2.1,
     hf.2.2.2.2.2.2.2.1, hf.2.2.2.2.2.2.2.2⟩
+
+/-- **C03 (on the wire, every reply).** Whatever the serialiser returns for the assembled reply — complete or cut to
+    the client's limit — the client decodes a message with its own id and question and the upstream's low rcode
+    bits, whose three sections are *prefixes* of the upstream's sections: no record is invented, altered, reordered
+    or moved to another section, and records are missing only from the end, only with TC set; without TC the client
+    decodes exactly the assembled reply. -/
+theorem C03_every_reply_faithful (q r : Pkt) (ip ck : Bytes) (size : Nat) (hs : 512 ≤ size) (wire : Bytes)
+    (hw : WfPkt (createInReply q r ip ck)) (h : serialiseWithSize (createInReply q r ip ck) size = some wire)
+    (hsz : wire.length < 65536) :
+    ∃ c, parse wire = .ok c ∧ c.qid = q.qid ∧ c.qdomain = q.qdomain ∧ c.qtype = q.qtype ∧ c.qclass = q.qclass ∧
+      c.rcode % 16 = r.rcode % 16 ∧ c.answer <+: r.answer ∧ c.nameserver <+: r.nameserver ∧ c.additional <+: r.additional ∧
+      (c.tc = false → c = createInReply q r ip ck) := by
+  have hf := C03_relay_faithful q r ip ck
+  simp only at hf
+  obtain ⟨f1, f2, f3, f4, f5, f6, f7, f8, f9⟩ := hf
+  rcases serialise_cases _ hw size hs wire h with hc | ⟨ka, kn, kd, _, hc⟩
+  · refine ⟨_, message_roundtrip _ hw size wire hc hsz, f1, f2, f4, f3, by rw [f6], ?_, ?_, ?_, fun _ => rfl⟩
+    · rw [f7]; exact List.prefix_refl _
+    · rw [f8]; exact List.prefix_refl _
+    · rw [f9]; exact List.prefix_refl _
+  · refine ⟨_, message_roundtrip _ (truncated_wf hw ka kn kd) size wire hc hsz, f1, f2, f4, f3, ?_, ?_, ?_, ?_, ?_⟩
+    · show (createInReply q r ip ck).rcode % 16 % 16 = r.rcode % 16
+      rw [f6, Nat.mod_mod]
+    · show (createInReply q r ip ck).answer.take ka <+: r.answer
+      rw [f7]; exact List.take_prefix _ _
+    · show (createInReply q r ip ck).nameserver.take kn <+: r.nameserver
+      rw [f8]; exact List.take_prefix _ _
+    · show (createInReply q r ip ck).additional.take kd <+: r.additional
+      rw [f9]; exact List.take_prefix _ _
+    · intro htc; exact absurd htc (by show ¬ (true = false); decide)
 
 end Erbium.Props.C03
